@@ -189,8 +189,10 @@ package extractor
 //@   attr safety C10
 //@   property C19
 //@   checks div idx slice assert extnil
-//@   modifies models.URL::*!Hops!Redirects
+//@   modifies models.URL::*!Hops!Redirects, xmlLeft
 //@   loop for invariant [nothing-yet] len(assets) == 0 && len(outlinks) == 0 && freshslice(rawURLs)
+//@   loop for invariant [left] xml.xmlRemaining() >= 0
+//@   loop for variant [token-loop-ends] @C10 xml.xmlRemaining() // C10: nothing a remote server can send makes the crawler spin forever in link and asset extraction (every way back to the head of the token loop follows a RawToken call that consumed input; an error leaves the loop)
 //@   loop range invariant [bounds] -1 <= rangeindex && len(assets) == 0 && len(outlinks) == 0 && freshslice(rawURLs)
 //@   loop range#2 invariant [frame] -1 <= rangeindex && rangeindex < len(rawURLs) && freshslice(assets) && freshslice(outlinks) && (arrof(assets) != 0 ==> !samearray(assets, outlinks))
 //@   loop range#2 invariant [count] len(assets) + len(outlinks) == rangeindex + 1
